@@ -141,17 +141,18 @@ Definition v1series_eqb (a b : v1series) : bool :=
   end.
 
 (* ---- correspondence and predicate ---- *)
-Inductive case :=
+(* one request as observed: what was sent, and what the handler did with it *)
+Inductive reqobs :=
 | CV2 (symbols : list str) (ss : list v2series) (panicked : bool) (status : Z) (ingested : list v1series).
 
-Definition corr_ok (c : case) : bool :=
+Definition req_corr_ok (c : reqobs) : bool :=
   match c with
   | CV2 symbols ss panicked status ingested =>
       negb panicked && Z.eqb (fst (handle_v2 symbols ss)) status
       && list_eqb v1series_eqb (snd (handle_v2 symbols ss)) ingested
   end.
 
-Definition pred_ok (c : case) : bool :=
+Definition req_pred_ok (c : reqobs) : bool :=
   match c with
   | CV2 symbols ss panicked status ingested =>
       negb panicked &&
@@ -159,3 +160,21 @@ Definition pred_ok (c : case) : bool :=
        then Z.eqb status 200 && list_eqb v1series_eqb ingested (map (spec_series symbols) ss)
        else (400 <=? status) && (status <? 500) && match ingested with [] => true | _ => false end)
   end.
+
+(* a case is a HISTORY of requests served one after the other by the same
+   handler; the handler is stateless across v2 requests, so the model of a
+   history is the model of each request, and each request is judged on its own
+   (its status and what it ingested follow from its own content only) *)
+Definition handle_history (reqs : list (list str * list v2series)) : list (Z * list v1series) :=
+  map (fun r => handle_v2 (fst r) (snd r)) reqs.
+
+Inductive case := CHist (reqs : list reqobs).
+
+Definition corr_ok (c : case) : bool := match c with CHist reqs => forallb req_corr_ok reqs end.
+Definition pred_ok (c : case) : bool := match c with CHist reqs => forallb req_pred_ok reqs end.
+
+(* tie T: handleV2HTTP, translateV2ToV1, v2Labels and translateV2SpansToV1 read
+   no field of the Handler and no package-level variable (no pool, no cache):
+   everything they use comes from the request *)
+Definition v2_path_stateless : bool :=
+  match v2_handler_fields_read, v2_package_vars_read with [], [] => true | _, _ => false end.
